@@ -62,6 +62,20 @@ func vInOpen(n *vNet, from peer.ID, handler network.StreamHandler) *vInStream {
 	return s
 }
 
+// vInOpenLate creates an inbound stream whose protocol is still unset — multistream negotiation
+// in progress: the stream already belongs to its connection, the handler has been looked up, but
+// the protocol is not yet recorded on the stream — and returns the function that completes the
+// negotiation (records the protocol, then dispatches to handler), as a libp2p host does.
+func vInOpenLate(n *vNet, from peer.ID, handler network.StreamHandler) (*vInStream, func()) {
+	l, e := n.H.NewInboundStream(from, "")
+	s := &vInStream{From: from, L: l, E: e, Done: make(chan struct{})}
+	proto := vInProto(n.D)
+	return s, func() {
+		l.SetProtocol(proto)
+		go s.run(handler)
+	}
+}
+
 func (s *vInStream) run(handler network.StreamHandler) {
 	defer close(s.Done)
 	defer func() {
